@@ -76,9 +76,9 @@ inductive Err where
 
 /-- head code of the next token, for the "next token must be a step / key specifier" checks -/
 def tokCode : List Tok → Nat
-  | .atom k _ :: _ => k
-  | .op o :: _ => 100 + o
-  | _ => 98
+  | .atom k _ :: _ => 2 * k + 2
+  | .op o :: _ => 2 * o + 1
+  | _ => 0
 
 def rhsOk (rhs : List Nat) (toks : List Tok) : Bool := rhs.isEmpty || rhs.contains (tokCode toks)
 
